@@ -119,7 +119,7 @@ def generate(rng, tier):
         recs = rng.randrange(1, 4)
         fl = ''.join(rng.choice('iii120') for _ in range(rng.choice([0, 1, 1, 2])))
         nshut = rng.choice([0, 0, 1, 1, 2])          # two callers: Shutdown requested from two threads at once
-        xs = rng.choice(['s', 's', 'sf', 'sF', 'sS'])
+        xs = rng.choice(['s', 's', 'sf', 'sF', 'sS', 'su', 'v', 'suvf'])
         nth = 1 + nrec + len(fl) + nshut + 3      # a few ids for collect threads
         n = rng.randrange(10, 140)
         th = list(range(nth))
